@@ -153,7 +153,8 @@ def drangeInt (t0 t1 n : Int) : Res (List Int) :=
 
 /-- `drange(t0, t1, bump)` with the repair of F3: a single period with a non-positive count (which rrule cannot
 enumerate) is iterated with `dt_bump` like a compound one (_drange.py:172), and of F15: the `dt_bump` loops raise
-ValueError as soon as a step fails to move strictly towards `t1` (`loopBranchC`) -/
+ValueError as soon as a step fails to move strictly towards `t1` (`loopBranchC`), and of F16: `'0b'` stands still and
+raises ValueError like every other spelling of a zero bump (_drange.py:175) -/
 def drange (t0 t1 : Int) (b : Bump) : Res (List Int) :=
   if t0 = t1 then .ok [t0] else
   match b with
@@ -163,7 +164,7 @@ def drange (t0 t1 : Int) (b : Bump) : Res (List Int) :=
   | .period [(n, u)] =>
       if u = .b ∨ n > 0 then
         let interval := n * (if u = .q then 3 else 1)
-        if tdDays (t1 - t0) * interval < 0 then .error .value
+        if tdDays (t1 - t0) * interval < 0 ∨ interval = 0 then .error .value      -- `interval = 0`: only '0b' gets here (F16)
         else if u = .b then
           .ok (orient interval ((daily (min t0 t1) (max t0 t1)).filter fun t => wdT t < 5))
         else .ok (upTo (rruleStep n u) t0 t1)
